@@ -40,8 +40,7 @@ inductive CPc where
   | recheck (r n ch : Nat)
   | waiting (n ch : Nat)
   | awaiting
-  | exitRel (v e : Nat)      -- result decided; `ref.Release()` still to be called
-  | exitWait (v e : Nat)     -- Release called; waiting for its `removeRef` section (if it won the swap)
+  | exitWait (v e : Nat)     -- result decided and `ref.Release()` called (once-flag swapped); waiting for its `removeRef` section (if it won the swap)
   | exitKeep (v e : Nat)     -- result decided; the reference is handed to the caller
   | returned
 deriving DecidableEq, Repr
@@ -94,11 +93,9 @@ inductive CEv where
   | cbout (a m r : Nat)
   | check (a : Nat)
   | recheck (a : Nat)
-  | wake (a : Nat)
   | waitCancel (a : Nat)
   | await (a : Nat)
   | awaitCancel (a : Nat)
-  | crel (a : Nat)
   | ret (a v e : Nat)
   | envCancelCall (a : Nat)
   | goRel (a : Nat)
@@ -145,6 +142,21 @@ def hook (c : Con) (nonce : Nat) (res : Bool) (v e : Nat) : Con :=
       else c
     else if res ∨ e ≠ 0 then { c with wres := true, wnonce := nonce, prom := some (v, e) }
     else c
+
+/-- Access is at the top of its loop, or parked in the final `select` on a closed wait channel -/
+def canLook (c : Con) : Bool :=
+  match c.pc with
+  | .look => true
+  | .waiting _ ch => c.bc.closed ch
+  | _ => false
+
+/-- the result is decided and the consumer calls `ref.Release()`: the swap of the once-flag happens
+here (the deferred / error-path `Release` follows the deciding action without any shared access in
+between); the `removeRef` section, if this call won the swap, is the base event `selfRelCS`. -/
+def exitRel (s : CSt) (a : Nat) (c : Con) (v e : Nat) : Option CSt :=
+  match step s.b (.selfRelSwap a) with
+  | some b' => some (setCon { s with b := b' } a { c with pc := .exitWait v e })
+  | none => none
 
 /-- does the base event append a thread entry (so the consumer table stays aligned)? -/
 def appendsThread : Ev → Bool
@@ -211,12 +223,13 @@ def cstep (s : CSt) : CEv → Option CSt
   | .snap a =>
     match getCon s a with
     | some c =>
-      if c.pc = .look ∧ unlockedFor s.b (.thr a) then
+      -- at the top of the loop, or leaving the final `select` through the closed wait channel (340)
+      if canLook c ∧ unlockedFor s.b (.thr a) then
         -- 290-296: one HoldLock section of the private Broadcast
         let n := c.cnonce + 1
         let g := c.bc.getWaitCh
         let c1 : Con := { c with cnonce := n, bc := g.1, wcancel := false }
-        if c.ce ≠ 0 then some (setCon s a { c1 with pc := .exitRel 0 c.ce })
+        if c.ce ≠ 0 then exitRel s a c1 0 c.ce
         else if c.cres then some (setCon s a { c1 with pc := .calling c.cv n g.2 })
         else some (setCon s a { c1 with pc := .waiting n g.2 })
       else none
@@ -241,7 +254,7 @@ def cstep (s : CSt) : CEv → Option CSt
     match getCon s a with
     | some c =>
       match c.pc with
-      | .incb m' _ n ch => if m = m' then some (setCon s a { c with pc := .afterCb r n ch }) else none
+      | .incb m' _ n ch => if m = m' then some (setCon s a { c with pc := .afterCb r n ch, wcancel := false }) else none
       | _ => none
     | none => none
   | .check a =>
@@ -249,7 +262,7 @@ def cstep (s : CSt) : CEv → Option CSt
     | some c =>
       match c.pc with
       | .afterCb r n ch =>
-        if c.cancelled then some (setCon s a { c with pc := .exitRel 0 9 })
+        if c.cancelled then exitRel s a c 0 9
         else some (setCon s a { c with pc := .recheck r n ch })
       | _ => none
     | none => none
@@ -258,22 +271,15 @@ def cstep (s : CSt) : CEv → Option CSt
     | some c =>
       match c.pc with
       | .recheck r n ch =>
-        if c.cnonce = n then some (setCon s a { c with pc := .exitRel 0 r })
+        if c.cnonce = n then exitRel s a c 0 r
         else some (setCon s a { c with pc := .waiting n ch })
-      | _ => none
-    | none => none
-  | .wake a =>
-    match getCon s a with
-    | some c =>
-      match c.pc with
-      | .waiting _ ch => if c.bc.closed ch then some (setCon s a { c with pc := .look }) else none
       | _ => none
     | none => none
   | .waitCancel a =>
     match getCon s a with
     | some c =>
       match c.pc with
-      | .waiting _ _ => if c.cancelled then some (setCon s a { c with pc := .exitRel 0 9 }) else none
+      | .waiting _ _ => if c.cancelled then exitRel s a c 0 9 else none
       | _ => none
     | none => none
   | .await a =>
@@ -282,7 +288,7 @@ def cstep (s : CSt) : CEv → Option CSt
       if c.pc = .awaiting ∧ unlockedFor s.b (.thr a) then
         match c.prom with
         | some (v, e) =>
-          if e ≠ 0 then some (setCon s a { c with pc := .exitRel v e })
+          if e ≠ 0 then exitRel s a c v e
           else some (setCon s a { c with pc := .exitKeep v 0 })
         | none => none
       else none
@@ -290,17 +296,7 @@ def cstep (s : CSt) : CEv → Option CSt
   | .awaitCancel a =>
     match getCon s a with
     | some c =>
-      if c.pc = .awaiting ∧ c.cancelled then some (setCon s a { c with pc := .exitRel 0 9 }) else none
-    | none => none
-  | .crel a =>
-    match getCon s a with
-    | some c =>
-      match c.pc with
-      | .exitRel v e =>
-        match step s.b (.selfRelSwap a) with
-        | some b' => some (setCon { s with b := b' } a { c with pc := .exitWait v e })
-        | none => none
-      | _ => none
+      if c.pc = .awaiting ∧ c.cancelled then exitRel s a c 0 9 else none
     | none => none
   | .ret a v e =>
     match getCon s a with
@@ -349,14 +345,41 @@ def cstep (s : CSt) : CEv → Option CSt
   | .probe v e => if cquiescent s ∧ v = s.b.target ∧ e = s.b.targetErr then some s else none
   | .quiesce B => if cquiescent s ∧ B = cpendingIds s then some s else none
 
-def ccands (s : CSt) : List CEv :=
-  ((internalCands s.b).map .base) ++
-  ((headBatch s.b).filterMap fun it => match it with
-    | .refcb r false res v e => some (.base (.cb (.refcb r false res v e)))
-    | _ => none) ++
+/-- internal events worth trying. Callback entries of hook references commute with every other
+callback entry of the same batch (they touch only their own consumer), so only the first one of the
+head batch is offered: a canonical order that loses no observable behaviour. -/
+def callInternal (s : CSt) : List CEv :=
+  (((allInternal s.b).filter fun e => match e with
+      | .cb _ => false
+      | _ => true).map .base) ++
+  (match (headBatch s.b).find? (fun it => match it with
+      | .refcb _ false _ _ _ => true
+      | _ => false) with
+    | some it => [.base (.cb it)]
+    | none => []) ++
   ((List.range s.ct.length).flatMap fun a =>
-    [.base (.selfRelCS a), .snap a, .watch a, .check a, .recheck a, .wake a, .waitCancel a, .await a,
-     .awaitCancel a, .crel a, .goRel a])
+    match getCon s a with
+    | some _ => [.base (.selfRelCS a), .snap a, .check a, .recheck a, .waitCancel a, .await a,
+                 .awaitCancel a, .goRel a]
+    | none => [])
+
+/-- the watcher's `cbCancel()`, `close(doneCh)` and the end of a drained call commute with every other
+event and nothing disables them (the return of the callback makes the watcher moot and resets the
+flag): they are tried first and alone. -/
+def curgent (s : CSt) : List CEv :=
+  ((urgentCands s.b).map .base) ++
+  (((List.range s.ct.length).map fun a => CEv.watch a).filter fun e =>
+    match e with
+    | .watch a => match getCon s a with
+      | some c => match c.pc with
+        | .calling _ _ ch | .incb _ _ _ ch => c.bc.closed ch && !c.wcancel
+        | _ => false
+      | none => false
+    | _ => false)
+
+def ccands (s : CSt) : List CEv :=
+  let u := curgent s
+  if u.isEmpty then callInternal s else u
 
 def cevsOf (s : CSt) : CObs → List CEv
   | .base (.probe v e) => [.probe v e]
